@@ -9,7 +9,7 @@
                         reports a parent directory for (IN_ATTRIB|IN_ISDIR, IN_DELETE_SELF, IN_IGNORED, ...)
      fs_names_ok t / op_names_ok o  :=  valid_name (basename p) for every entry path / operation path
      path_inv root r :=  every value of _path_for_wd, every key of _wd_for_path, every source in _moved_from_events
-                         is rooted
+                         and the path of the remembered _moved_out_candidate (repair F10) is rooted
    valid_name: non-empty, no '/', no NUL - any other byte, decodable or not.  The root is any non-empty byte string
    that does not end in '/'. *)
 Require Import WD.Base.Prelude WD.Base.BStr WD.Model.SubEvents WD.Model.Emitter WD.Model.Fs WD.Model.Reader
@@ -114,6 +114,27 @@ Theorem C19_pipeline_paths : forall P w s0 h s obs,
   (forall e, In e (p_out s) -> ev_ok (c_root (pc_reader P)) e).
 Proof. exact pipeline_paths_any. Qed.
 Print Assumptions C19_pipeline_paths.
+
+(* ================================================================== repair F10: a moved-out directory is forgotten *)
+(* Current code (c_fix_moveout = true): when the record after a directory IN_MOVED_FROM is not its IN_MOVED_TO, the head
+   of the loop body leaves no key of _wd_for_path that is the moved-out path or lies below it, remembers nothing, and
+   only removes entries (so path_inv is kept: C19_reader_inv holds for the repaired reader, whatever is pending). *)
+Theorem C19_moveout_forgotten : forall C r k e c p r' k',
+  c_fix_moveout C = true -> pend r = Some (c, p) ->
+  is_moved_to (k_mask e) && N.eqb (k_cookie e) c && amem N.eqb (k_wd e) (pfw r) = false ->
+  settle_pending C r k e = (r', k') ->
+  pend r' = None /\
+  (forall x, In x (wfp r') -> In x (wfp r)) /\
+  (forall q w, In (q, w) (wfp r') -> beqb q p || starts (p ++ [sep]) q = false).
+Proof. exact settle_pending_forgotten. Qed.
+Print Assumptions C19_moveout_forgotten.
+
+(* the only records the reader itself causes in the kernel queue (inotify_rm_watch in _forget_tree: IN_IGNORED, no name)
+   keep the queue invariant, for every batch *)
+Theorem C19_reader_queue : forall C t b r k acc r' k' acc',
+  Forall kraw_ok (k_queue k) -> read_batch C t (r, k, acc) b = Done (r', k', acc') -> Forall kraw_ok (k_queue k').
+Proof. exact read_batch_kq. Qed.
+Print Assumptions C19_reader_queue.
 
 (* ================================================================== TYPE law *)
 (* the typed transcription of InotifyEmitter.queue_events is Emitter.emit once the tags are erased *)
@@ -277,6 +298,34 @@ Proof.
            end.
   - eexists. eexists. eexists. split; [vm_compute; reflexivity|]. split; [vm_compute; reflexivity|].
     vm_compute. split; reflexivity.
+Qed.
+
+(* mkdir "é"; rename "é" out of the tree; touch "é/\xff" in its new place (the kernel still reports it on the old
+   descriptor).  Current code: the directory is forgotten when the next record is not its IN_MOVED_TO - 4 events, none
+   about the file, the stale watch removed (its IN_IGNORED is queued, name-less), only the root is still known. *)
+Example C19_moveout_nonvacuous :
+  exists s0 s obs, pinit (Pm_ true) wm_ = Some s0 /\ prun (Pm_ true) s0 hm_ [] = Done (s, obs) /\
+    map (fun e => (ev_cls e, ev_src e)) (p_out s) =
+      [(DirCreated, [47;119;47;195;169]); (DirModified, [47;119]);
+       (DirDeleted, [47;119;47;195;169]); (DirModified, [47;119])]%N /\
+    wfp (p_r s) = [(rt_, 1%N)] /\ pend (p_r s) = None /\
+    k_queue (p_k s) = [{| k_wd := 2; k_mask := IN_IGNORED; k_cookie := 0; k_name := [] |}].
+Proof.
+  eexists. eexists. eexists. split; [vm_compute; reflexivity|]. split; [vm_compute; reflexivity|].
+  vm_compute. repeat split.
+Qed.
+
+(* The pinned code (c_fix_moveout := false) on the same history: every path is still the root followed by valid names
+   (C19_pipeline_paths holds for both values of the flag), but "/w/é/\xff" is reported created, opened and closed
+   although no such entry ever existed - the name law alone does not exclude phantom paths; the repair does. *)
+Example C19_moveout_pinned_phantom :
+  exists s0 s obs, pinit (Pm_ false) wm_ = Some s0 /\ prun (Pm_ false) s0 hm_ [] = Done (s, obs) /\
+    In (mk FileCreated [47;119;47;195;169;47;255]%N []) (p_out s) /\
+    fexists [47;119;47;195;169;47;255]%N (w_fs (p_world s)) = false /\
+    fexists [47;111;47;195;169;47;255]%N (w_fs (p_world s)) = true.
+Proof.
+  eexists. eexists. eexists. split; [vm_compute; reflexivity|]. split; [vm_compute; reflexivity|].
+  split; [vm_compute; tauto | vm_compute; split; reflexivity].
 Qed.
 
 (* the same rename through the typed emitter: str watch -> every non-empty path is TStr, bytes watch -> TBytes *)
